@@ -24,7 +24,7 @@ class Obj(object):
 class Fixture(object):
     """owner O (net.a) lends Obj instances to holder H (net.b); frames are delivered one by one on command"""
 
-    def __init__(self, keys):
+    def __init__(self, keys, fresh=False):
         import rpyc
         from rpyc.core import consts, brine
         self.consts, self.brine = consts, brine
@@ -32,7 +32,13 @@ class Fixture(object):
         fx = self
         # lent objects are lists: netref classes of built-in types are pre-generated, so receiving one needs no nested
         # HANDLE_INSPECT round trip (which would force the other stream to be drained during a delivery)
-        self.objs = {k: [k] for k in keys}
+        # fresh=True lends instances of a user class instead: the holder's first sight of the class makes it ask the owner
+        # to describe it (HANDLE_INSPECT) from inside the unboxing, serving whatever arrives meanwhile - references to the
+        # same object included.  Frames that carry no reference (the INSPECT exchange, plain replies) are then delivered
+        # eagerly: they are stuttering steps of RpycLifetime.
+        self.fresh = fresh
+        self.insp_seqs = {}
+        self.objs = {k: (Obj(k) if fresh else [k]) for k in keys}
         self.base_rc = {k: self.rc(k) for k in keys}
         self.touched = []
         self.held = {k: [] for k in keys}
@@ -115,6 +121,12 @@ class Fixture(object):
         except Exception:
             return None
         refs = []
+        if self.fresh and msg == c.MSG_REQUEST and args[0] == c.HANDLE_INSPECT:
+            k = self.key_of_idpack(args[1][1][0])
+            self.insp_seqs[seq] = k
+            return {"type": "INSP", "k": k, "c": 0}
+        if self.fresh and msg in (c.MSG_REPLY, c.MSG_EXCEPTION) and seq in self.insp_seqs and fr in self._toH_frames():
+            return {"type": "INSPR", "k": self.insp_seqs[seq], "c": 0}
         if msg == c.MSG_REQUEST:
             handler, boxed = args
             self.refs_in(boxed, refs)
@@ -138,6 +150,9 @@ class Fixture(object):
                 return {"type": "PAIR" if len(rem) == 2 else "REF", "k": rem[0]}
         return None
 
+    def _toH_frames(self):
+        return self.net.in_flight(self.net.a)
+
     def stream_msgs(self, st):
         return [m for m in (self.classify(f) for f in self.net.in_flight(st)) if m is not None]
 
@@ -150,6 +165,20 @@ class Fixture(object):
 
     def request(self, k):
         self.pending.append((k, self.sched.call(lambda: self.a_get(k))))
+
+    def pump(self):
+        """fresh mode: deliver frames without a reference event that are at the head of either stream"""
+        for _ in range(200):
+            moved = False
+            for st in (self.net.a, self.net.b):
+                fl = self.net.in_flight(st)
+                if fl and self.classify(fl[0]) is None:
+                    self.net.deliver(st)
+                    self.sched.settle()
+                    moved = True
+            if not moved:
+                return
+        raise sim.Deadlock("pump does not settle")
 
     def deliver(self, frm):
         """release frames of one direction up to and including the next one that carries a reference event"""
@@ -202,13 +231,36 @@ class Fixture(object):
                 k = self.key_of_idpack(idp)
                 if k is not None:
                     tab[k] = slot[1]
+            seen = {}
             for idp, wr in list(self.ch._proxy_cache._dict.items()):
                 k = self.key_of_idpack(idp)
                 p = wr()
                 if k is not None and p is not None:
-                    proxy[k] = object.__getattribute__(p, "____refcount__")
+                    seen[id(p)] = (k, object.__getattribute__(p, "____refcount__"))
                 del p
-        return {"tab": tab, "proxy": proxy, "toH": self.stream_msgs(self.net.a), "toO": self.stream_msgs(self.net.b)}
+            # nested unboxing can leave several proxy objects for one key alive (the cache keeps the latest): the count the
+            # specification speaks of is the sum over the distinct live proxies
+            for k, lst in self.held.items():
+                for p in lst:
+                    seen[id(p)] = (k, object.__getattribute__(p, "____refcount__"))
+            for k, c in seen.values():
+                proxy[k] += c
+        pobj = {}
+        if self.white:
+            for k, lst in self.held.items():
+                ids, counts = set(), []
+                for p in lst:
+                    if id(p) not in ids:
+                        ids.add(id(p))
+                        counts.append(object.__getattribute__(p, "____refcount__"))
+                pobj[k] = counts
+            for idp, wr in list(self.ch._proxy_cache._dict.items()):
+                k = self.key_of_idpack(idp)
+                p = wr()
+                if k is not None and p is not None and not any(p is q for q in self.held[k]):
+                    pobj[k].append(object.__getattribute__(p, "____refcount__"))
+                del p
+        return {"tab": tab, "proxy": proxy, "pobj": pobj, "toH": self.stream_msgs(self.net.a), "toO": self.stream_msgs(self.net.b)}
 
     def teardown(self):
         self.sched.abort()
@@ -216,6 +268,10 @@ class Fixture(object):
 
 
 def apply_action(fx, act, k=None):
+    return _apply_action(fx, act, k)
+
+
+def _apply_action(fx, act, k=None):
     if act == "Send":
         fx.send(k)
     elif act == "SendPair":
@@ -306,7 +362,10 @@ def compare(fx, st):
     for k in fx.keys:
         if p["tab"][k] != st["tab"][k]:
             return "tab[%s]=%s vs spec %s" % (k, p["tab"][k], st["tab"][k])
-        if p["proxy"][k] != st["proxy"][k]:
+        if fx.fresh:
+            if list(p["pobj"][k]) != list(st["pobj"][k]):
+                return "proxy objects of %s have counts %s vs spec %s" % (k, p["pobj"][k], list(st["pobj"][k]))
+        elif p["proxy"][k] != st["proxy"][k]:
             return "proxy[%s]=%s vs spec %s" % (k, p["proxy"][k], st["proxy"][k])
     for nm in ("toH", "toO"):
         a = [(m["type"], m["k"], m.get("c", 0) if m["type"] == "DEL" else 0) for m in p[nm]]
@@ -323,19 +382,20 @@ def parse_label(label):
 
 
 # --------------------------------------------------------------------------- spec -> code
-def replay_graph(chk, keys, maxbox, maxq, max_paths):
+def replay_graph(chk, keys, maxbox, maxq, max_paths, fresh=False):
     d = os.path.join(OUT, "c10.%d" % os.getpid())
     os.makedirs(d, exist_ok=True)
     with open(os.path.join(d, "G.tla"), "w") as f:
-        f.write("---- MODULE G ----\nEXTENDS RpycLifetime\n====\n")
+        f.write("---- MODULE G ----\nEXTENDS %s\n====\n" % ("RpycLifetimeInspect" if fresh else "RpycLifetime"))
     with open(os.path.join(d, "G.cfg"), "w") as f:
         f.write("SPECIFICATION Spec\nCONSTANTS\n  K = {%s}\n  MaxBox = %d\n  MaxQ = %d\n%s\n" % (
-            ", ".join('"%s"' % k for k in keys), maxbox, maxq, "\n".join("INVARIANT " + i for i in INVS)))
+            ", ".join('"%s"' % k for k in keys), maxbox, maxq, "\n".join("INVARIANT " + i for i in INVS + (["AnswersUnderWay"] if fresh else []))))
     res = tlc.run_tlc("G", "G.cfg", workers=8, dump=os.path.join(d, "graph"), cwd=d, jvm_props=["TLA-Library=" + tlc.SPEC])
     tlc.require_ok(res, "RpycLifetime graph")
     if res.violation:
         raise tlc.MachineryError("RpycLifetime violates " + res.violation)
-    chk.add_tlc(res, "RpycLifetime state graph for transition cover (K=%s MaxBox=%d MaxQ=%d)" % (keys, maxbox, maxq))
+    chk.add_tlc(res, "%s state graph for transition cover (K=%s MaxBox=%d MaxQ=%d)" % (
+        "RpycLifetimeInspect" if fresh else "RpycLifetime", keys, maxbox, maxq))
     g = tlc.load_dot(os.path.join(d, "graph.dot"))
     shutil.rmtree(d, ignore_errors=True)
     paths = tlc.edge_cover_paths(g)
@@ -345,7 +405,7 @@ def replay_graph(chk, keys, maxbox, maxq, max_paths):
         paths = paths[:max_paths]
     covered = 0
     for pi, path in enumerate(paths):
-        fx = Fixture(keys)
+        fx = Fixture(keys, fresh)
         labels = [lab for lab, _ in path[1:]]
         try:
             cur = path[0]
@@ -367,7 +427,7 @@ def replay_graph(chk, keys, maxbox, maxq, max_paths):
                 chk.evaluated()
                 for key, msg in oracle(fx, act, k, delivered, nt):
                     chk.violation(key, "C10 %s (history: %s)" % (msg, labels[:i + 1]),
-                                  {"mode": "history", "keys": keys, "history": labels[:i + 1]})
+                                  {"mode": "history", "keys": keys, "history": labels[:i + 1], "fresh": fresh})
                 mism = compare(fx, g.nodes[dst]) if (act != "Close" and ok) else None
                 if mism:
                     # drift: from here on only the property's own oracles judge the rest of the history
@@ -390,9 +450,9 @@ def replay_graph(chk, keys, maxbox, maxq, max_paths):
 
 
 # --------------------------------------------------------------------------- code -> spec
-def random_history(chk, rnd, keys, length):
+def random_history(chk, rnd, keys, length, fresh=False):
     """drive the real code with a random history; returns (trace for TLC, history labels)"""
-    fx = Fixture(keys)
+    fx = Fixture(keys, fresh)
     trace, hist = [], []
     try:
         for step in range(length):
@@ -414,12 +474,17 @@ def random_history(chk, rnd, keys, length):
             chk.evaluated()
             for key, msg in oracle(fx, act, k, delivered, nt):
                 chk.violation(key, "C10 %s (random history, step %d)" % (msg, step),
-                              {"mode": "history", "keys": keys, "history": list(hist)})
+                              {"mode": "history", "keys": keys, "history": list(hist), "fresh": fresh})
             if fx.white:
                 p = fx.project()
-                trace.append({"act": act, "k": k if act != "Close" and k else "",
-                              "tab": [p["tab"][x] for x in keys], "proxy": [p["proxy"][x] for x in keys],
-                              "nH": len(p["toH"]), "nO": len(p["toO"])})
+                dead = act == "Close"        # handles on a closed connection are not live proxies
+                ev = {"act": act, "k": k if act != "Close" and k else "", "tab": [p["tab"][x] for x in keys],
+                      "nH": len(p["toH"]), "nO": len(p["toO"])}
+                if fresh:
+                    ev["pobj"] = [([] if dead else list(p["pobj"][x])) for x in keys]
+                else:
+                    ev["proxy"] = [(0 if dead else p["proxy"][x]) for x in keys]
+                trace.append(ev)
             if act == "Close":
                 break
         drain(chk, fx, hist, keys)
@@ -428,7 +493,7 @@ def random_history(chk, rnd, keys, length):
         fx.teardown()
 
 
-def validate(chk, keys, traces):
+def validate(chk, keys, traces, fresh=False):
     traces = [t for t in traces if t]
     if not traces:
         return
@@ -443,10 +508,10 @@ def validate(chk, keys, traces):
         del b2[j]
         batch += [b1, b2]
     defs = "TVK == <<%s>>" % ", ".join('"%s"' % k for k in keys)
-    out, res = tlc.validate_traces("Trace_RpycLifetime", batch,
+    out, res = tlc.validate_traces("Trace_RpycLifetimeInspect" if fresh else "Trace_RpycLifetime", batch,
                                    defs, ["K = {%s}" % ", ".join('"%s"' % k for k in keys), "MaxBox = 100000",
-                                          "MaxQ = 100000", "KSeq <- TVK"], invariants=INVS, name="c10")
-    chk.add_tlc(res, "trace validation batch (RpycLifetime)")
+                                          "MaxQ = 100000", "KSeq <- TVK"], invariants=INVS, name="c10f" if fresh else "c10")
+    chk.add_tlc(res, "trace validation batch (%s)" % ("RpycLifetimeInspect" if fresh else "RpycLifetime"))
     if res.violation:
         chk.violation("trace-invariant:" + res.violation,
                       "C10 an implementation history reaches a state violating %s" % res.violation,
@@ -462,15 +527,15 @@ def validate(chk, keys, traces):
             chk.drift.append("history %d rejected at event %d/%d: %r" % (i, out[i][0] + 1, out[i][1],
                                                                           traces[i][out[i][0]]))
     chk.validated(acc)
-    chk.cov["impl_traces"] = n
-    chk.cov["impl_traces_accepted"] = acc
+    chk.cov["impl_traces" + ("_fresh" if fresh else "")] = n
+    chk.cov["impl_traces_accepted" + ("_fresh" if fresh else "")] = acc
     chk.sample({"kind": "random implementation history (events as logged for TLC)", "events": traces[0][:25]})
 
 
 def do_replay(chk, path):
     import json
     rep = json.load(open(path))["replay"]
-    fx = Fixture(rep["keys"])
+    fx = Fixture(rep["keys"], rep.get("fresh", False))
     bad_all = []
     try:
         for label in rep["history"]:
@@ -505,23 +570,36 @@ def main():
     for a in ("Send", "SendPair", "Request", "DeliverToHolder", "DropProxy", "PassBack", "DeliverToOwner", "Close"):
         if res.coverage.get(a, (0, 0))[1] == 0:
             raise tlc.MachineryError("vacuity: action %s never taken" % a)
+    res = tlc.require_ok(tlc.run_tlc("RpycLifetimeInspect", "MC_RpycLifetimeInspect.cfg", coverage=True), "MC_RpycLifetimeInspect")
+    if res.violation:
+        raise tlc.MachineryError("specification RpycLifetimeInspect violates " + res.violation)
+    chk.add_tlc(res, "exhaustive, objects of user classes (unboxing suspended in a nested INSPECT round trip): 2 objects, <=3 boxings "
+                "each, streams <=3: Accounting, Safety, NoError, LeakFree, ClosedClean, AnswersUnderWay")
     if chk.thorough:
         np_, ne, tot = replay_graph(chk, ["k1", "k2"], 3, 3, 12000)
     else:
         np_, ne, tot = replay_graph(chk, ["k1"], 3, 3, 400)
         np2, ne2, tot2 = replay_graph(chk, ["k1", "k2"], 3, 3, 500)
         np_, ne, tot = np_ + np2, ne + ne2, tot + tot2
+    # the same behaviours with objects of a class the holder has not seen: unboxing inspects the class through a nested request
+    ndrift = len(chk.drift)
+    np3, ne3, tot3 = replay_graph(chk, ["k1"], 3, 3, 250 if not chk.thorough else 5000, fresh=True)
+    np4, ne4, tot4 = replay_graph(chk, ["k1", "k2"], 2 if not chk.thorough else 3, 3, 150 if not chk.thorough else 6000, fresh=True)
+    chk.cov.update({"fresh_class_paths_replayed": np3 + np4, "fresh_class_edges_replayed": ne3 + ne4,
+                    "fresh_class_drift": len(chk.drift) - ndrift})
     chk.cov.update({"tlc_paths_replayed": np_, "graph_edges_replayed": ne, "graph_edges_total": tot})
     rnd = random.Random(chk.seed + 17)
     keys = ["k1", "k2", "k3", "k4"]
-    traces = []
+    traces, ftraces = [], []
     for i in range(60 if not chk.thorough else 500):
-        tr, hist = random_history(chk, rnd, keys, 60 if not chk.thorough else 200)
-        traces.append(tr)
+        fresh = i % 3 == 2
+        tr, hist = random_history(chk, rnd, keys, 60 if not chk.thorough else 200, fresh)
+        (ftraces if fresh else traces).append(tr)
         chk.distinct(("hist", tuple(hist)))
         if i % 20 == 19:
             gc.collect()
     validate(chk, keys, traces)
+    validate(chk, keys, ftraces, fresh=True)
     chk.assumptions += [
         "CPython reference counting runs proxy finalizers at the moment the last handle is dropped (automatic GC is off)",
         "frames are delivered whole and in order per direction; the harness chooses when each direction advances",
